@@ -856,7 +856,6 @@ func (fr *Frame) havocClosureEffects(site ssa.Instruction, mc *ssa.MakeClosure, 
 	ex.abstractions["closure passed to "+fr.callName[site]+" at "+ex.pos(instrPos(site))+": every component it assigns is havoced (it may run any number of times)"] = true
 }
 
-
 // lockReacquire: `guarded_by T.f mu ... reacquire`. The contract of a function is read at its first acquisition of the
 // lock (its linearisation point). Once the function has released x.mu, other goroutines may run: when it acquires
 // x.mu AGAIN, the guarded field x.f (for a map or slice: its contents as well) holds arbitrary values. A function that
